@@ -71,6 +71,7 @@ pub const TS: &[(&str, &str)] = &[
 
 /// Documents over the tiny C14 execution schema (`Query { a: A, n: Int, fail: Int }`, `A { a: A, n: Int, fail: Int }`),
 /// used for validation-error and execution-error locations.
+#[allow(dead_code)]
 pub const SCHEMA_DOCS: &[(&str, &str)] = &[
     ("flat", "{ n x: n a { n } }"),
     ("nested", "query Q { a { a { n y: n } n } n }"),
